@@ -3,8 +3,9 @@
 From Coq Require Import ZArith QArith List Bool.
 From Centro Require Import Base.VecC13 Proofs.VecC13Proofs Model.MeasureC13 Proofs.MeasureC13Proofs Model.EllipseCoordsC13 Proofs.EllipseC13Proofs
   Proofs.PadC13Proofs Proofs.TranslateC13Proofs Proofs.EllipseRowsC13.
-From Centro Require Model.Circle Model.CircleVec Model.Feret Proofs.CircleVecProofs Proofs.CircleVecStep Model.MecFeretC13 Proofs.MecFeretC13Proofs.
-From Centro Require Model.Hull Proofs.HullBatch Model.HullAreaC13 Proofs.HullAreaC13Proofs Model.MedianC18 Spec.SpecC18 Proofs.MedianC13Proofs Model.IndexesC18 Proofs.IndexesC18Proofs.
+From Centro Require Model.Circle Model.CircleVec Model.Feret Proofs.CircleVecProofs Proofs.CircleVecStep Model.MecFeretC13 Proofs.MecFeretC13Proofs
+  Spec.HullSpec Spec.MecSpec Spec.FeretSpec Spec.FeretBrute Proofs.OwnRowsC13 Proofs.PolygonDiscC13 Proofs.EndToEndC13 Proofs.MecVecOwnerC13 Proofs.MecVecInvC13 Proofs.MecVecSimC13 Proofs.HullBoundC13.
+From Centro Require Proofs.HullGuard Model.Hull Proofs.HullBatch Model.HullAreaC13 Proofs.HullAreaC13Proofs Model.MedianC18 Spec.SpecC18 Proofs.MedianC13Proofs Model.IndexesC18 Proofs.IndexesC18Proofs.
 Import ListNotations.
 Open Scope Z_scope.
 
@@ -265,57 +266,249 @@ Theorem C13_indexes_rowmajor : forall counts : list (list nat),
 Proof. exact IndexesC18Proofs.indexes_rowmajor. Qed.
 Print Assumptions C13_indexes_rowmajor.
 
-(* ---- calculate_convex_hull_areas (and, divided into the area, calculate_solidity) ----
-   HullAreaC13.hull_area_obj is the value of one object from its own hull vertices (mean point, +1
-   fix-ups, triangle fan, modulo wrap), compared with the implementation on every generated object.
-   Composition with C02's model of convex_hull_ijv: position r of the batch is that function of the rows
-   of label indexes[r] only -- and of the kernel's buffer slack.  _partial: that the slack is irrelevant
-   (C02 guard_irrelevant) is only proved finitely in C02, and the vectorised bookkeeping of the area
-   loop itself (index_of_label, cumsum(counts_nd), modulo_mask) is tied by correspondence, not proved.
-   minimum_enclosing_circle and feret_diameter: see the next block. *)
-Theorem C13_hull_area_own_rows_partial : forall ijv indexes r,
-  NoDup indexes -> (r < length indexes)%nat ->
-  exists slack,
-    nth r (HullAreaC13.hull_areas_rows (fst (Hull.convex_hull_ijv ijv indexes))) (0, 0%Q) =
-    HullAreaC13.hull_area_obj
-      (Hull.hull_label (Hull.zmax_list (map Hull.r_i (Hull.lexsort ijv)))
-                       (map Hull.r_pt (HullBatch.sel (nth r indexes 0) (Hull.lexsort ijv))) slack).
-Proof. exact HullAreaC13Proofs.hull_area_own_rows. Qed.
-Print Assumptions C13_hull_area_own_rows_partial.
+(* ---- hull area / solidity, minimum_enclosing_circle, feret_diameter: per-object models on the rows of
+   C02's convex_hull_ijv.  With C02's Full kernel theorems (guard_irrelevant, hull_no_overflow,
+   hull_label_correct) there is no slack caveat any more: position r carries the per-object model applied to
+   OwnRowsC13.own_hull ijv l = the guard-free kernel on label l's own rows in buffer order (the only other
+   input is the call's largest row index, the kernel's envelope sentinel), and that polygon meets C02's full
+   hull specification for exactly label l's pixels. ---- *)
 
-(* ---- minimum_enclosing_circle / feret_diameter: C14's models on the hull rows of C02's model ----
-   MecFeretC13.mec_rows / feret_rows: per-object Chrystal iteration / antipodal sweep on each row of the call;
-   mec_rows_vec: C14's vectorised bookkeeping model on the same rows.  On every generated scene the three are
-   compared with the implementation and mec_rows_vec with mec_rows exactly.
-   _partial: (1) C02's guard_irrelevant is finite, so the kernel's hull is a function of the label's own
-   rows and the buffer slack; (2) for the vectorised loop C14 proves independence of a pass; the lift to the
-   whole loop below assumes that every object's S0 / S1 stay among its own rows (missing lemma: owner is
-   preserved by vstep; idle frame for finished objects when the loop lengths differ), and
-   chrystal_vec = map chrystal is established by exact model-vs-model comparison only. *)
-Theorem C13_mec_own_rows_partial : forall ijv indexes r,
-  NoDup indexes -> (r < length indexes)%nat ->
-  exists slack,
-    nth r (MecFeretC13.mec_rows (fst (Hull.convex_hull_ijv ijv indexes))) (Circle.chrystal []) =
-    Circle.chrystal (Hull.hull_label (Hull.zmax_list (map Hull.r_i (Hull.lexsort ijv)))
-                                     (map Hull.r_pt (HullBatch.sel (nth r indexes 0) (Hull.lexsort ijv))) slack).
-Proof. exact MecFeretC13Proofs.mec_own_rows. Qed.
-Print Assumptions C13_mec_own_rows_partial.
+Theorem C13_own_hull_spec : forall ijv l,
+  OwnRowsC13.nonneg_rows ijv -> HullSpec.HullSpec (HullSpec.pts_of ijv l) (OwnRowsC13.own_hull ijv l).
+Proof. exact OwnRowsC13.own_hull_spec. Qed.
+Print Assumptions C13_own_hull_spec.
 
-Theorem C13_feret_own_rows_partial : forall ijv indexes r,
-  NoDup indexes -> (r < length indexes)%nat ->
-  exists slack,
-    nth r (MecFeretC13.feret_rows (fst (Hull.convex_hull_ijv ijv indexes))) (Feret.sweep []) =
-    Feret.sweep (Hull.hull_label (Hull.zmax_list (map Hull.r_i (Hull.lexsort ijv)))
-                                 (map Hull.r_pt (HullBatch.sel (nth r indexes 0) (Hull.lexsort ijv))) slack).
-Proof. exact MecFeretC13Proofs.feret_own_rows. Qed.
-Print Assumptions C13_feret_own_rows_partial.
+Theorem C13_hull_area_own_rows : forall ijv indexes r,
+  NoDup indexes -> (r < length indexes)%nat -> OwnRowsC13.nonneg_rows ijv ->
+  nth r (HullAreaC13.hull_areas_rows (fst (Hull.convex_hull_ijv ijv indexes))) (HullAreaC13.hull_area_obj []) =
+  HullAreaC13.hull_area_obj (OwnRowsC13.own_hull ijv (nth r indexes 0)).
+Proof. exact OwnRowsC13.hull_area_own_rows_full. Qed.
+Print Assumptions C13_hull_area_own_rows.
 
-Theorem C13_mec_vec_passes_independent_partial : forall rows app n k m st st',
-  (0 <= k < Z.of_nat n) -> CircleVecStep.samelen st st' -> CircleVecProofs.agree app k st st' ->
-  (forall j k', (j < m)%nat -> 0 <= k' < Z.of_nat n ->
-                CircleVecStep.owner app (MecFeretC13.vsteps rows app n j st) k') ->
-  (forall j k', (j < m)%nat -> 0 <= k' < Z.of_nat n ->
-                CircleVecStep.owner app (MecFeretC13.vsteps rows app n j st') k') ->
+Theorem C13_mec_own_rows : forall ijv indexes r,
+  NoDup indexes -> (r < length indexes)%nat -> OwnRowsC13.nonneg_rows ijv ->
+  nth r (MecFeretC13.mec_rows (fst (Hull.convex_hull_ijv ijv indexes))) (Circle.chrystal []) =
+  Circle.chrystal (OwnRowsC13.own_hull ijv (nth r indexes 0)).
+Proof. exact OwnRowsC13.mec_own_rows_full. Qed.
+Print Assumptions C13_mec_own_rows.
+
+Theorem C13_feret_own_rows : forall ijv indexes r,
+  NoDup indexes -> (r < length indexes)%nat -> OwnRowsC13.nonneg_rows ijv ->
+  nth r (MecFeretC13.feret_rows (fst (Hull.convex_hull_ijv ijv indexes))) (Feret.sweep []) =
+  Feret.sweep (OwnRowsC13.own_hull ijv (nth r indexes 0)).
+Proof. exact OwnRowsC13.feret_own_rows_full. Qed.
+Print Assumptions C13_feret_own_rows.
+
+(* request order, subsets, other requested labels: the entry of label l is the same wherever l stands in
+   any two repeat-free request lists *)
+Theorem C13_hull_area_request_position : forall ijv idx idx' r r',
+  NoDup idx -> NoDup idx' -> (r < length idx)%nat -> (r' < length idx')%nat -> OwnRowsC13.nonneg_rows ijv ->
+  nth r idx 0 = nth r' idx' 0 ->
+  nth r (HullAreaC13.hull_areas_rows (fst (Hull.convex_hull_ijv ijv idx))) (HullAreaC13.hull_area_obj []) =
+  nth r' (HullAreaC13.hull_areas_rows (fst (Hull.convex_hull_ijv ijv idx'))) (HullAreaC13.hull_area_obj []).
+Proof. exact OwnRowsC13.hull_area_request_position. Qed.
+Print Assumptions C13_hull_area_request_position.
+
+Theorem C13_mec_request_position : forall ijv idx idx' r r',
+  NoDup idx -> NoDup idx' -> (r < length idx)%nat -> (r' < length idx')%nat -> OwnRowsC13.nonneg_rows ijv ->
+  nth r idx 0 = nth r' idx' 0 ->
+  nth r (MecFeretC13.mec_rows (fst (Hull.convex_hull_ijv ijv idx))) (Circle.chrystal []) =
+  nth r' (MecFeretC13.mec_rows (fst (Hull.convex_hull_ijv ijv idx'))) (Circle.chrystal []).
+Proof. exact OwnRowsC13.mec_request_position. Qed.
+Print Assumptions C13_mec_request_position.
+
+Theorem C13_feret_request_position : forall ijv idx idx' r r',
+  NoDup idx -> NoDup idx' -> (r < length idx)%nat -> (r' < length idx')%nat -> OwnRowsC13.nonneg_rows ijv ->
+  nth r idx 0 = nth r' idx' 0 ->
+  nth r (MecFeretC13.feret_rows (fst (Hull.convex_hull_ijv ijv idx))) (Feret.sweep []) =
+  nth r' (MecFeretC13.feret_rows (fst (Hull.convex_hull_ijv ijv idx'))) (Feret.sweep []).
+Proof. exact OwnRowsC13.feret_request_position. Qed.
+Print Assumptions C13_feret_request_position.
+
+(* ---- end to end (C02 x C14 x polygon_in_disc), Full: for every ijv list with non-negative rows, every
+   repeat-free request list and every position, with S = the requested label's own pixels:
+   the model of minimum_enclosing_circle returns CEmpty iff S is empty and otherwise THE minimum enclosing
+   circle of S; the model of feret_diameter returns the largest squared distance between two pixels of S. ---- *)
+
+(* a disc that contains the vertices of a C02 hull polygon of S contains S *)
+Theorem C13_polygon_in_disc : forall S V c1 c2 R,
+  HullSpec.HullSpec S V -> MecSpec.Encloses V c1 c2 R -> MecSpec.Encloses S c1 c2 R.
+Proof. exact PolygonDiscC13.polygon_in_disc. Qed.
+Print Assumptions C13_polygon_in_disc.
+
+(* on S, a linear functional with integer coefficients is at most its largest value at a vertex *)
+Theorem C13_polygon_functional_max : forall S V (p q : Z),
+  HullSpec.HullSpec S V -> V <> [] ->
+  exists v, In v V /\ forall s, In s S -> PolygonDiscC13.phi p q s <= PolygonDiscC13.phi p q v.
+Proof. exact PolygonDiscC13.polygon_functional_max. Qed.
+Print Assumptions C13_polygon_functional_max.
+
+Theorem C13_mec_end_to_end : forall ijv indexes r,
+  NoDup indexes -> (r < length indexes)%nat -> OwnRowsC13.nonneg_rows ijv ->
+  let S := HullSpec.pts_of ijv (nth r indexes 0) in
+  let res := nth r (MecFeretC13.mec_rows (fst (Hull.convex_hull_ijv ijv indexes))) (Circle.chrystal []) in
+  (S = [] -> res = Circle.CEmpty) /\
+  (S <> [] -> exists ny nx d rn,
+      res = Circle.CCircle ny nx d rn /\
+      MecSpec.MEC S (inject_Z ny / inject_Z d) (inject_Z nx / inject_Z d) (inject_Z rn / inject_Z (d * d))).
+Proof. exact EndToEndC13.mec_end_to_end_full. Qed.
+Print Assumptions C13_mec_end_to_end.
+
+Theorem C13_max_d2_hull : forall S V, HullSpec.HullSpec S V -> FeretSpec.max_d2 V = FeretSpec.max_d2 S.
+Proof. exact EndToEndC13.max_d2_hull. Qed.
+Print Assumptions C13_max_d2_hull.
+
+Theorem C13_feret_max_end_to_end : forall ijv indexes r,
+  NoDup indexes -> (r < length indexes)%nat -> OwnRowsC13.nonneg_rows ijv ->
+  let S := HullSpec.pts_of ijv (nth r indexes 0) in
+  exists mx mq,
+    nth r (MecFeretC13.feret_rows (fst (Hull.convex_hull_ijv ijv indexes))) (Feret.sweep []) = Some (mx, mq) /\
+    mx = FeretSpec.max_d2 S.
+Proof. exact EndToEndC13.feret_end_to_end_max. Qed.
+Print Assumptions C13_feret_max_end_to_end.
+
+(* the minimum Feret diameter: the sweep returns the brute-force minimum over the edges of V of the largest
+   vertex distance (C14 calipers_eq_bruteforce); by C13_polygon_functional_max the largest distance of a
+   vertex from an edge line is the largest distance of a pixel of S from it; that the minimum over edge
+   directions is the minimum over ALL directions is C14's feret_min theorems (checked per run). *)
+Theorem C13_feret_end_to_end : forall ijv indexes r,
+  NoDup indexes -> (r < length indexes)%nat -> OwnRowsC13.nonneg_rows ijv ->
+  let l := nth r indexes 0 in
+  let S := HullSpec.pts_of ijv l in
+  let V := OwnRowsC13.own_hull ijv l in
+  let res := nth r (MecFeretC13.feret_rows (fst (Hull.convex_hull_ijv ijv indexes))) (Feret.sweep []) in
+  HullSpec.HullSpec S V /\
+  exists mx mq, res = Some (mx, mq) /\ mx = FeretSpec.max_d2 V /\
+    ((length V <= 2)%nat -> mq = (0, 1)) /\
+    ((3 <= length V)%nat ->
+       exists bq, FeretBrute.bf_min V = Some bq /\ 0 < snd mq /\ 0 < snd bq /\ fst mq * snd bq = fst bq * snd mq).
+Proof. exact EndToEndC13.feret_end_to_end. Qed.
+Print Assumptions C13_feret_end_to_end.
+
+(* ---- the vectorised loop (C14's Model/CircleVec.v) under the invariant that holds for EVERY call:
+   an object that is still active (keep_me) has its S0 / S1 among its own rows ---- *)
+
+(* every call starts in the invariant (repeat-free non-negative request list, one block per request) *)
+Theorem C13_mec_vec_init_inv : forall indexes blocks,
+  NoDup indexes -> (forall j, In j indexes -> 0 <= j) -> length indexes = length blocks ->
+  let t := CircleVec.vec_init indexes blocks in
+  MecVecInvC13.inv (snd (fst t)) (length blocks) (snd t).
+Proof. exact MecVecInvC13.vec_init_inv. Qed.
+Print Assumptions C13_mec_vec_init_inv.
+
+(* ... and a pass preserves it *)
+Theorem C13_mec_vec_inv_preserved : forall rows app n st,
+  MecVecInvC13.inv app n st -> MecVecInvC13.inv app n (CircleVec.vstep rows app n st).
+Proof. exact MecVecInvC13.vstep_inv. Qed.
+Print Assumptions C13_mec_vec_inv_preserved.
+
+(* after a pass, object k's entries are those its own decision alone produces from its own entries *)
+Theorem C13_mec_vec_own_write : forall rows app n st k,
+  0 <= k < Z.of_nat n -> MecVecInvC13.inv app n st ->
+  CircleVecProofs.agree app k (CircleVec.vstep rows app n st)
+                        (CircleVec.apply_action st k (CircleVec.decide rows app st k)) /\
+  CircleVecStep.samelen (CircleVec.vstep rows app n st) st.
+Proof. exact MecVecInvC13.pass_own'. Qed.
+Print Assumptions C13_mec_vec_own_write.
+
+(* Full: any number of passes keeps two global states in agreement on object k's own entries, whatever
+   the other objects' entries are *)
+Theorem C13_mec_vec_passes_independent : forall rows app n k m st st',
+  0 <= k < Z.of_nat n -> CircleVecStep.samelen st st' -> CircleVecProofs.agree app k st st' ->
+  MecVecInvC13.inv app n st -> MecVecInvC13.inv app n st' ->
   CircleVecProofs.agree app k (MecFeretC13.vsteps rows app n m st) (MecFeretC13.vsteps rows app n m st').
-Proof. exact MecFeretC13Proofs.mec_vec_passes_independent. Qed.
-Print Assumptions C13_mec_vec_passes_independent_partial.
+Proof. exact MecVecInvC13.passes_independent_inv. Qed.
+Print Assumptions C13_mec_vec_passes_independent.
+
+(* idle frame: a finished object is not touched by a later pass (loops of different length agree on it) *)
+Theorem C13_mec_vec_idle_frame : forall rows app n st k,
+  0 <= k < Z.of_nat n -> MecVecInvC13.inv app n st -> ~ MecVecInvC13.active st k ->
+  CircleVecProofs.agree app k (CircleVec.vstep rows app n st) st.
+Proof. exact MecVecInvC13.idle_frame'. Qed.
+Print Assumptions C13_mec_vec_idle_frame.
+
+(* ---- whole call: the vectorised bookkeeping (global hull rows, point_index offsets, anti-index gather,
+   within_label_indexes, global s0_idx / s1_idx, one decision per active object and pass) computes, for
+   every object, exactly the per-object Chrystal loop on its own block.  Simulation: object k's view of
+   the global arrays (S0 / S1 rows, w = 0 / 1 / >= 2 on its own rows) is a state of the per-object loop,
+   the candidate scan of its rows chooses the same vertex, its write is the loop's step, other objects'
+   writes do not touch it, a finished object is frozen.  The hypothesis excludes blocks on which the
+   per-object loop itself exhausts its iteration bound (never a hull: C14_chrystal_on_every_hull). ---- *)
+Theorem C13_chrystal_vec_correct : forall indexes blocks,
+  NoDup indexes -> (forall j, In j indexes -> 0 <= j) -> length indexes = length blocks ->
+  (forall b, In b blocks -> Circle.chrystal b <> Circle.CFuel) ->
+  CircleVec.chrystal_vec indexes blocks = map Circle.chrystal blocks.
+Proof. exact MecVecSimC13.chrystal_vec_correct. Qed.
+Print Assumptions C13_chrystal_vec_correct.
+
+(* renumbering of the request list *)
+Theorem C13_chrystal_vec_renumber : forall (f : Z -> Z) indexes blocks,
+  (forall a c, f a = f c -> a = c) -> (forall a, 0 <= a -> 0 <= f a) ->
+  NoDup indexes -> (forall j, In j indexes -> 0 <= j) -> length indexes = length blocks ->
+  (forall b, In b blocks -> Circle.chrystal b <> Circle.CFuel) ->
+  CircleVec.chrystal_vec (map f indexes) blocks = CircleVec.chrystal_vec indexes blocks.
+Proof. exact MecVecSimC13.chrystal_vec_renumber. Qed.
+Print Assumptions C13_chrystal_vec_renumber.
+
+(* request order / subsets / other objects: position by position a function of that position's block only *)
+Theorem C13_mec_rows_vec_correct : forall rows : list (Z * list Circle.cpt),
+  NoDup (map fst rows) -> (forall j, In j (map fst rows) -> 0 <= j) ->
+  (forall r, In r rows -> Circle.chrystal (snd r) <> Circle.CFuel) ->
+  MecFeretC13.mec_rows_vec rows = MecFeretC13.mec_rows rows.
+Proof. exact MecVecSimC13.mec_rows_vec_correct. Qed.
+Print Assumptions C13_mec_rows_vec_correct.
+
+(* end to end for the VECTORISED model on the rows of C02's convex_hull_ijv: with C13_mec_end_to_end every
+   position of the vectorised call is THE minimum enclosing circle of the requested label's own pixels *)
+Theorem C13_mec_vec_end_to_end : forall ijv indexes,
+  NoDup indexes -> (forall j, In j indexes -> 0 <= j) -> OwnRowsC13.nonneg_rows ijv ->
+  MecFeretC13.mec_rows_vec (fst (Hull.convex_hull_ijv ijv indexes)) =
+  MecFeretC13.mec_rows (fst (Hull.convex_hull_ijv ijv indexes)).
+Proof. exact EndToEndC13.mec_vec_end_to_end. Qed.
+Print Assumptions C13_mec_vec_end_to_end.
+
+(* ---- independence from the other labels: the kernel's only non-own input, the sentinel max_i + 1 of the
+   lower envelope (max_i = largest row index of the whole call), is irrelevant ---- *)
+Theorem C13_hull_bound_irrelevant : forall m m' pts,
+  (forall s, In s pts -> 0 <= fst s <= m) -> (forall s, In s pts -> 0 <= fst s <= m') ->
+  HullGuard.hull_free m pts = HullGuard.hull_free m' pts.
+Proof. exact HullBoundC13.hull_free_bound_irrelevant. Qed.
+Print Assumptions C13_hull_bound_irrelevant.
+
+(* (a) + (b) for the three hull-based measurements, Full: two calls (other labels, other pixels of other
+   labels, other request lists, the label at any position) in which label l has the same rows in buffer
+   order return the same entry for l *)
+Theorem C13_hull_area_independent : forall ijv ijv' idx idx' r r',
+  NoDup idx -> NoDup idx' -> (r < length idx)%nat -> (r' < length idx')%nat ->
+  OwnRowsC13.nonneg_rows ijv -> OwnRowsC13.nonneg_rows ijv' -> nth r idx 0 = nth r' idx' 0 ->
+  OwnRowsC13.own_rows ijv (nth r idx 0) = OwnRowsC13.own_rows ijv' (nth r idx 0) ->
+  nth r (HullAreaC13.hull_areas_rows (fst (Hull.convex_hull_ijv ijv idx))) (HullAreaC13.hull_area_obj []) =
+  nth r' (HullAreaC13.hull_areas_rows (fst (Hull.convex_hull_ijv ijv' idx'))) (HullAreaC13.hull_area_obj []).
+Proof. exact HullBoundC13.hull_area_independent. Qed.
+Print Assumptions C13_hull_area_independent.
+
+Theorem C13_mec_independent : forall ijv ijv' idx idx' r r',
+  NoDup idx -> NoDup idx' -> (r < length idx)%nat -> (r' < length idx')%nat ->
+  OwnRowsC13.nonneg_rows ijv -> OwnRowsC13.nonneg_rows ijv' -> nth r idx 0 = nth r' idx' 0 ->
+  OwnRowsC13.own_rows ijv (nth r idx 0) = OwnRowsC13.own_rows ijv' (nth r idx 0) ->
+  nth r (MecFeretC13.mec_rows (fst (Hull.convex_hull_ijv ijv idx))) (Circle.chrystal []) =
+  nth r' (MecFeretC13.mec_rows (fst (Hull.convex_hull_ijv ijv' idx'))) (Circle.chrystal []).
+Proof. exact HullBoundC13.mec_independent. Qed.
+Print Assumptions C13_mec_independent.
+
+Theorem C13_feret_independent : forall ijv ijv' idx idx' r r',
+  NoDup idx -> NoDup idx' -> (r < length idx)%nat -> (r' < length idx')%nat ->
+  OwnRowsC13.nonneg_rows ijv -> OwnRowsC13.nonneg_rows ijv' -> nth r idx 0 = nth r' idx' 0 ->
+  OwnRowsC13.own_rows ijv (nth r idx 0) = OwnRowsC13.own_rows ijv' (nth r idx 0) ->
+  nth r (MecFeretC13.feret_rows (fst (Hull.convex_hull_ijv ijv idx))) (Feret.sweep []) =
+  nth r' (MecFeretC13.feret_rows (fst (Hull.convex_hull_ijv ijv' idx'))) (Feret.sweep []).
+Proof. exact HullBoundC13.feret_independent. Qed.
+Print Assumptions C13_feret_independent.
+
+(* the hypothesis "same rows in buffer order" of the three independence theorems follows from "same rows of
+   label l in the call's ijv list": lexsort orders by label first, so filtering one label out of the sorted
+   buffer is sorting that label's rows *)
+Theorem C13_own_rows_of_label : forall ijv ijv' l,
+  HullBatch.sel l ijv = HullBatch.sel l ijv' -> OwnRowsC13.own_rows ijv l = OwnRowsC13.own_rows ijv' l.
+Proof. exact HullBoundC13.own_rows_of_label. Qed.
+Print Assumptions C13_own_rows_of_label.
